@@ -35,6 +35,14 @@ Proof.
   exists wit_user, wit_prog, 1%nat. vm_compute. repeat split; try reflexivity. discriminate.
 Qed.
 
+Lemma Forall2_impl_in : forall {A B} (P Q : A -> B -> Prop) (l : list A) (l' : list B),
+  (forall a b, In a l -> In b l' -> P a b -> Q a b) -> Forall2 P l l' -> Forall2 Q l l'.
+Proof.
+  intros A B P Q l l' H F; induction F as [| a b ra rb Hab Hr IH]; constructor.
+  - apply H; [left | left |]; auto.
+  - apply IH. intros; apply H; [right | right |]; assumption.
+Qed.
+
 (* ------------------------------------------------------------------ function updates *)
 
 Lemma upd_same : forall f i o, upd f i o i = o.
@@ -167,25 +175,27 @@ Lemma sustain_view : forall a b n, view a = view b ->
   end.
 Proof.
   intros a b n H; destruct (view_inv _ _ H) as [K [W [Kk T]]].
-  unfold sustain_within_block. rewrite <- K.
-  destruct (c_kind a) eqn:Ka; rewrite <- W; try (destruct (c_within a); cbn; auto);
-    try (apply view_eq_fields; cbn; congruence).
+  unfold sustain_within_block. rewrite <- K, <- W.
+  destruct (c_kind a) eqn:Ka; try (destruct (c_within a) eqn:Wa); cbn; auto;
+    apply view_eq_fields; cbn; congruence.
 Qed.
 
 Lemma sustain_settled : forall a n a', settled_obj a -> sustain_within_block a n = Some a' -> settled_obj a'.
 Proof.
-  intros a n a' S H; unfold sustain_within_block in H.
-  destruct (c_kind a) eqn:K; try (destruct (c_within a) eqn:W; inversion H; subst; clear H);
-    unfold settled_obj; cbn; try rewrite K; intros; try discriminate.
-  - exfalso. unfold settled_obj in S. rewrite K in S. apply S; auto.
-  - inversion H; subst; cbn. rewrite K in *. discriminate.
-  - inversion H; subst. rewrite K in *; discriminate.
+  intros a n a' S H; unfold sustain_within_block in H. unfold settled_obj in *.
+  destruct (c_kind a) eqn:K; cbn in S;
+    try (destruct (c_within a) eqn:W; [| try discriminate H]);
+    injection H as <-; intro Hw; cbn in Hw |- *; rewrite ?K in Hw; cbn in Hw;
+    try discriminate Hw; try discriminate; try (rewrite W; discriminate);
+    try (apply S; reflexivity).
+  exfalso. apply (S eq_refl). reflexivity.
 Qed.
 
 Lemma sustain_some_of_settled : forall a n, settled_obj a -> sustain_within_block a n <> None.
 Proof.
   intros a n S; unfold sustain_within_block, settled_obj in *.
-  destruct (c_kind a) eqn:K; cbn in S; try (destruct (c_within a); [discriminate | exfalso; apply S; auto]); discriminate.
+  destruct (c_kind a) eqn:K; cbn in S; destruct (c_within a) eqn:W; try discriminate;
+    exfalso; apply (S eq_refl); reflexivity.
 Qed.
 
 (** what [copy_sustain] does: new objects at [nx, nx + length ids), old ones untouched *)
@@ -197,8 +207,8 @@ Lemma copy_sustain_spec : forall ids f nx n f' nx' l,
   Forall2 (fun i c => sustain_within_block (f i) n = Some (f' c)) ids l.
 Proof.
   induction ids as [| i r IH]; intros f nx n f' nx' l Hlt H; cbn in H.
-  - inversion H; subst. repeat split; auto; [lia | constructor].
-  - destruct (sustain_within_block (f i) n) as [o |] eqn:S; [| discriminate].
+  - inversion H; subst. repeat split; auto; try (cbn; lia); try constructor.
+  - destruct (sustain_within_block (f i) n) as [o |] eqn:Sus; [| discriminate].
     destruct (copy_sustain (upd f nx o) (S nx) r n) as [[[f2 nx2] l2] |] eqn:C; [| discriminate].
     inversion H; subst; clear H. inversion Hlt as [| ? ? Hi Hr]; subst.
     destruct (IH (upd f nx o) (S nx) n f' nx' l2) as [A [B [Cc D]]]; auto.
@@ -208,7 +218,7 @@ Proof.
     + cbn. rewrite B. reflexivity.
     + intros id Hid. rewrite Cc by lia. apply upd_other; lia.
     + constructor.
-      * rewrite Cc by lia. rewrite upd_same. exact S.
+      * rewrite Cc by lia. rewrite upd_same. exact Sus.
       * eapply Forall2_impl_in; [| exact D]. intros a b Ha Hb Hs. cbn in Hs.
         rewrite upd_other in Hs; [exact Hs |].
         assert ((a < nx)%nat) by (rewrite Forall_forall in Hr; apply Hr; exact Ha). lia.
@@ -447,8 +457,8 @@ Section Guarded.
       copy_sustain fF nF lF k = Some (fF', nF', cF) /\ copy_sustain fM nM lM k = Some (fM', nM', cM) /\
       Forall2 (fun a b => view (fF' a) = view (fM' b)) cF cM.
   Proof.
-    intros lF lM fF fM nF nM k H; revert fF fM nF nM H.
-    induction lF as [| a ra IH]; intros fF fM nF nM H HF HM HS; inversion H; subst.
+    intros lF lM fF fM nF nM k H; revert lM fF fM nF nM H.
+    induction lF as [| a ra IH]; intros lM fF fM nF nM H HF HM HS; inversion H; subst.
     - exists fF, nF, [], fM, nM, []. repeat split; constructor.
     - rename l' into rb. rename y into b.
       inversion HF; subst. inversion HM; subst. inversion HS; subst.
@@ -456,7 +466,7 @@ Section Guarded.
       destruct (sustain_within_block (fF a) k) as [oa |] eqn:Sa;
         [| exfalso; eapply sustain_some_of_settled; eauto].
       destruct (sustain_within_block (fM b) k) as [ob |] eqn:Sb; [| contradiction].
-      destruct (IH (upd fF nF oa) (upd fM nM ob) (S nF) (S nM)) as [fF' [nF' [cF [fM' [nM' [cM [CF [CM R]]]]]]]].
+      destruct (IH rb (upd fF nF oa) (upd fM nM ob) (S nF) (S nM)) as [fF' [nF' [cF [fM' [nM' [cM [CF [CM R]]]]]]]].
       + eapply Forall2_impl_in; [| exact H4]. intros x y Hx Hy Hv. cbn in Hv.
         rewrite Forall_forall in H5, H7.
         rewrite !upd_other; [exact Hv | |]; [specialize (H7 y Hy) | specialize (H5 x Hx)]; lia.
@@ -472,4 +482,299 @@ Section Guarded.
           as [_ [_ [FM _]]].
         rewrite FF, FM by lia. rewrite !upd_same. exact Sv.
   Qed.
+
+  (** two good states agree on the view of a settled user object *)
+  Lemma user_view_eq : forall F M c, user_ok F -> user_ok M -> (c < n)%nat -> settled F c -> settled M c ->
+    view (objs F c) = view (objs M c).
+  Proof.
+    intros F M c HF HM Hc SF SM.
+    destruct (HF c Hc) as [K1 [Kk1 [T1 W1]]]. destruct (HM c Hc) as [K2 [Kk2 [T2 W2]]].
+    apply view_eq_fields; try congruence.
+    unfold settled, settled_obj in SF, SM. rewrite K1 in SF. rewrite K2 in SM.
+    destruct W1 as [W1 | [Hw W1]]; destruct W2 as [W2 | [Hw2 W2]]; try congruence.
+    - exfalso. apply (SF Hw2). exact W1.
+    - exfalso. apply (SM Hw). exact W2.
+  Qed.
+
+  (** the combined lists of a kept construction are related *)
+  Lemma gather_rel : forall F M d, sim F M -> desc_ok d ->
+    Forall (fun b => keep b = true /\ (b < List.length (env F))%nat) (deps d) ->
+    (gather F d = None /\ gather M d = None) \/
+    (exists fF nF allF fM nM allM inhF inhM,
+       gather F d = Some (fF, nF, allF) /\ gather M d = Some (fM, nM, allM) /\
+       ((allF = inhF ++ d_cs d /\ allM = inhM ++ d_cs d) \/ (allF = d_cs d ++ inhF /\ allM = d_cs d ++ inhM)) /\
+       Forall2 (fun a b => view (fF a) = view (fM b)) inhF inhM /\
+       Forall (fun a => settled_obj (fF a)) inhF /\ Forall (fun b => settled_obj (fM b)) inhM).
+  Proof.
+    intros F M d [GF [GM [L K]]] D Hd. unfold gather, deps in *.
+    destruct GF as [HnF [HuF HeF]]. destruct GM as [HnM [HuM HeM]].
+    destruct (d_kind d) as [| i | bs | o i k |].
+    - right. exists (objs F), (next F), (d_cs d), (objs M), (next M), (d_cs d), [], [].
+      repeat split; auto; constructor.
+    - inversion Hd as [| ? ? [Hk Hb] _]; subst.
+      destruct (K i Hk Hb) as [[A B] | [lF [lM [A [B V]]]]].
+      + left; rewrite A, B; auto.
+      + right. rewrite A, B. exists (objs F), (next F), (lF ++ d_cs d), (objs M), (next M), (lM ++ d_cs d), lF, lM.
+        repeat split; auto. * apply (HeF _ _ A). * apply (HeM _ _ B).
+    - destruct (origs_of_rel F M bs K L Hd) as [[A B] | [lF [lM [A [B V]]]]].
+      + left; rewrite A, B; auto.
+      + right. rewrite A, B. exists (objs F), (next F), (d_cs d ++ lF), (objs M), (next M), (d_cs d ++ lM), lF, lM.
+        repeat split; auto.
+        * apply (origs_of_ok F bs lF HeF A).
+        * apply (origs_of_ok M bs lM HeM B).
+    - inversion Hd as [| ? ? [Hko Hbo] Hd']; subst. inversion Hd' as [| ? ? [Hki Hbi] _]; subst.
+      destruct (K o Hko Hbo) as [[A B] | [loF [loM [A [B Vo]]]]].
+      + left; rewrite A, B; auto.
+      + rewrite A, B.
+        destruct (K i Hki Hbi) as [[A2 B2] | [liF [liM [A2 [B2 Vi]]]]].
+        * left; rewrite A2, B2; auto.
+        * rewrite A2, B2.
+          destruct (HeF _ _ A) as [SoF BoF]. destruct (HeM _ _ B) as [SoM BoM].
+          destruct (HeF _ _ A2) as [SiF BiF]. destruct (HeM _ _ B2) as [SiM BiM].
+          destruct (copy_rel loF loM (objs F) (objs M) (next F) (next M) k Vo BoF BoM SoF)
+            as [fF' [nF' [cF [fM' [nM' [cM [CF [CM R]]]]]]]].
+          rewrite CF, CM. right.
+          destruct (copy_sustain_spec _ _ _ _ _ _ _ BoF CF) as [_ [_ [FF SF]]].
+          destruct (copy_sustain_spec _ _ _ _ _ _ _ BoM CM) as [_ [_ [FM SM]]].
+          exists fF', nF', (cF ++ liF ++ d_cs d), fM', nM', (cM ++ liM ++ d_cs d), (cF ++ liF), (cM ++ liM).
+          repeat split; auto.
+          -- left; rewrite !app_assoc; auto.
+          -- apply Forall2_app; [exact R |].
+             eapply Forall2_impl_in; [| exact Vi]. intros a b Ha Hb Hv. cbn in Hv.
+             rewrite Forall_forall in BiF, BiM. rewrite FF, FM by auto. exact Hv.
+          -- apply Forall_app; split.
+             ++ clear - SoF SF. induction SF as [| a c ra rc Hs Hr IH]; [constructor |].
+                inversion SoF; subst. constructor; [| apply IH; assumption].
+                eapply sustain_settled; [| exact Hs]. assumption.
+             ++ rewrite Forall_forall in *. intros x Hx. rewrite FF by auto. apply SiF; exact Hx.
+          -- apply Forall_app; split.
+             ++ clear - SoM SM. induction SM as [| a c ra rc Hs Hr IH]; [constructor |].
+                inversion SoM; subst. constructor; [| apply IH; assumption].
+                eapply sustain_settled; [| exact Hs]. assumption.
+             ++ rewrite Forall_forall in *. intros x Hx. rewrite FM by auto. apply SiM; exact Hx.
+    - left; auto.
+  Qed.
+
+  Lemma kept_rel_frame : forall F M F' M' x y,
+    good F -> good M -> List.length (env F) = List.length (env M) -> kept_rel F M ->
+    env F' = env F ++ [x] -> env M' = env M ++ [y] ->
+    (forall id, (id < next F)%nat -> settled F id -> view (objs F' id) = view (objs F id)) ->
+    (forall id, (id < next M)%nat -> settled M id -> view (objs M' id) = view (objs M id)) ->
+    (keep (List.length (env F)) = true ->
+       (x = None /\ y = None) \/ (exists lF lM, x = Some lF /\ y = Some lM /\ vrel F' M' lF lM)) ->
+    kept_rel F' M'.
+  Proof.
+    intros F M F' M' x y GF GM L K EF EM FrF FrM New b Hk Hb.
+    rewrite EF, EM. rewrite EF, app_length in Hb; cbn in Hb.
+    destruct (lt_dec b (List.length (env F))) as [Hlt | Hge].
+    - rewrite !orig_of_app_old by lia.
+      destruct (K b Hk Hlt) as [[A B] | [lF [lM [A [B V]]]]]; [left; auto | right].
+      exists lF, lM; repeat split; auto.
+      destruct GF as [_ [_ HeF]]. destruct GM as [_ [_ HeM]].
+      destruct (HeF _ _ A) as [SF BF]. destruct (HeM _ _ B) as [SM BM].
+      rewrite Forall_forall in *.
+      eapply vrel_frame; [| | exact V]; intros; [apply FrF | apply FrM]; auto.
+    - assert (b = List.length (env F)) by lia. subst b.
+      assert (E2 : orig_of (env M ++ [y]) (List.length (env F)) = y) by (rewrite L; apply orig_of_app_new).
+      rewrite orig_of_app_new, E2.
+      destruct (New Hk) as [[-> ->] | [lF [lM [-> [-> V]]]]]; [left; auto | right; exists lF, lM; auto].
+  Qed.
+
+  (** a kept construction: same outcome in both runs *)
+  Lemma build_sim_keep : forall F M d, sim F M -> desc_ok d ->
+    Forall (fun b => keep b = true /\ (b < List.length (env F))%nat) (deps d) ->
+    sim (fst (build F d)) (fst (build M d)) /\ snd (build F d) = snd (build M d).
+  Proof.
+    intros F M d S D Hd.
+    pose proof S as [GF [GM [L K]]].
+    pose proof (build_good F d GF D) as GF'. pose proof (build_good M d GM D) as GM'.
+    destruct (gather_rel F M d S D Hd) as [[A B] | [fF [nF [allF [fM [nM [allM [inhF [inhM [A [B [Sp [V [SF SM]]]]]]]]]]]]]].
+    - (* both constructions fail *)
+      assert (EF : build F d = ({| objs := objs F; next := next F; env := env F ++ [None] |}, None)) by (unfold build; rewrite A; reflexivity).
+      assert (EM : build M d = ({| objs := objs M; next := next M; env := env M ++ [None] |}, None)) by (unfold build; rewrite B; reflexivity).
+      rewrite EF, EM in *. cbn [fst snd] in *. split; [| reflexivity].
+      split; [exact GF' |]. split; [exact GM' |]. split; [cbn; rewrite !app_length; cbn; lia |].
+      eapply kept_rel_frame with (x := None) (y := None); eauto; try reflexivity. intros _; left; auto.
+    - set (g := d_geom d) in *.
+      set (f2F := init_all (write_mtr fF allF (d_copied d) (g_trials g)) allF g).
+      set (f2M := init_all (write_mtr fM allM (d_copied d) (g_trials g)) allM g).
+      assert (EF : build F d = ({| objs := f2F; next := nF; env := env F ++ [Some allF] |},
+                                Some (map (fun i => view (f2F i)) allF))) by (unfold build; rewrite A; reflexivity).
+      assert (EM : build M d = ({| objs := f2M; next := nM; env := env M ++ [Some allM] |},
+                                Some (map (fun i => view (f2M i)) allM))) by (unfold build; rewrite B; reflexivity).
+      (* the views of the two new lists agree entry by entry *)
+      assert (Vinh : Forall2 (fun a b => view (f2F a) = view (f2M b)) inhF inhM).
+      { eapply Forall2_impl_in; [| exact V]. intros a b Ha Hb Hv. cbn in Hv.
+        rewrite Forall_forall in SF, SM.
+        unfold f2F, f2M.
+        rewrite !init_all_view_settled, !write_mtr_view; auto;
+          (eapply settled_view; [symmetry; apply write_mtr_view |]); auto. }
+      assert (Vcs : Forall2 (fun a b => view (f2F a) = view (f2M b)) (d_cs d) (d_cs d)).
+      { destruct D as [Hcs _]. rewrite EF in GF'. rewrite EM in GM'. cbn [fst] in GF', GM'.
+        destruct GF' as [_ [HuF' _]]. destruct GM' as [_ [HuM' _]].
+        assert (Hin : forall c, In c (d_cs d) -> view (f2F c) = view (f2M c)).
+        { intros c Hc. rewrite Forall_forall in Hcs.
+          apply (user_view_eq {| objs := f2F; next := nF; env := env F ++ [Some allF] |}
+                              {| objs := f2M; next := nM; env := env M ++ [Some allM] |} c HuF' HuM' (Hcs c Hc));
+            unfold settled; cbn [objs]; apply init_all_in_settles;
+            destruct Sp as [[-> ->] | [-> ->]]; apply in_or_app; auto. }
+        clear - Hin. induction (d_cs d) as [| c r IH]; constructor; [apply Hin; left; auto | apply IH; intros; apply Hin; right; auto]. }
+      assert (Vall : Forall2 (fun a b => view (f2F a) = view (f2M b)) allF allM).
+      { destruct Sp as [[-> ->] | [-> ->]]; apply Forall2_app; assumption. }
+      rewrite EF, EM in *. cbn [fst snd] in *. split.
+      + split; [exact GF' |]. split; [exact GM' |]. split; [cbn; rewrite !app_length; cbn; lia |].
+        eapply kept_rel_frame with (x := Some allF) (y := Some allM); eauto; try reflexivity.
+        * intros id Hid Sid. cbn [objs]. pose proof (build_frame F d id GF D Hid Sid) as Fr.
+          rewrite EF in Fr. exact Fr.
+        * intros id Hid Sid. cbn [objs]. pose proof (build_frame M d id GM D Hid Sid) as Fr.
+          rewrite EM in Fr. exact Fr.
+        * intros _. right. exists allF, allM. repeat split. exact Vall.
+      + f_equal. clear - Vall. induction Vall; cbn; [reflexivity | f_equal; assumption].
+  Qed.
+
+  (** a construction that the twin skips *)
+  Lemma build_sim_skip : forall F M d, sim F M -> desc_ok d -> keep (List.length (env F)) = false ->
+    sim (fst (build F d)) (fst (build M (skip_of d))).
+  Proof.
+    intros F M d S D Hk. pose proof S as [GF [GM [L K]]].
+    pose proof (build_good F d GF D) as GF'.
+    assert (EM : build M (skip_of d) = ({| objs := objs M; next := next M; env := env M ++ [None] |}, None)) by reflexivity.
+    rewrite EM. cbn [fst].
+    assert (GM' : good {| objs := objs M; next := next M; env := env M ++ [None] |}).
+    { destruct GM as [HnM [HuM HeM]]. split; [exact HnM |]. split; [exact HuM |].
+      intros b l Hb. cbn [env] in Hb.
+      destruct (orig_of_app_cases _ _ _ _ Hb) as [[_ Ho] | [_ Hx]]; [apply HeM in Ho; exact Ho | discriminate]. }
+    split; [exact GF' |]. split; [exact GM' |].
+    assert (EnvF : exists x, env (fst (build F d)) = env F ++ [x]).
+    { unfold build. destruct (gather F d) as [[[f nx] all] |]; cbn; eauto. }
+    destruct EnvF as [x Ex]. split; [rewrite Ex; cbn; rewrite !app_length; cbn; lia |].
+    eapply kept_rel_frame with (x := x) (y := None); eauto; try reflexivity.
+    - intros id Hid Sid. apply build_frame; auto.
+    - intros Hk'. congruence.
+  Qed.
+
+  Lemma run_cons : forall s d r, run s (d :: r) =
+    (fst (run (fst (build s d)) r), snd (build s d) :: snd (run (fst (build s d)) r)).
+  Proof. intros s d r; cbn. destruct (build s d) as [s1 o]. destruct (run s1 r) as [s2 os]. reflexivity. Qed.
+
+  Lemma run_sim : forall ds j F M, sim F M -> List.length (env F) = j ->
+    (forall d, In d ds -> desc_ok d) -> wf_from n j ds = true -> closed_from keep j ds = true ->
+    forall i, keep (j + i) = true ->
+      nth_error (snd (run F ds)) i = nth_error (snd (run M (mask_from keep j ds))) i.
+  Proof.
+    induction ds as [| d r IH]; intros j F M S Hj Hok Hwf Hcl i Hi; [destruct i; reflexivity |].
+    cbn [mask_from]. cbn in Hwf, Hcl.
+    apply andb_true_iff in Hwf; destruct Hwf as [Hwf1 Hwf]. apply andb_true_iff in Hwf1; destruct Hwf1 as [Hdeps _].
+    apply andb_true_iff in Hcl; destruct Hcl as [Hcl1 Hcl].
+    assert (D : desc_ok d) by (apply Hok; left; reflexivity).
+    rewrite !run_cons. cbn [snd].
+    assert (Lenv : forall s x, exists y, env (fst (build s x)) = env s ++ [y]).
+    { intros s x; unfold build. destruct (gather s x) as [[[f nx] all] |]; cbn; eauto. }
+    destruct (keep j) eqn:Kj.
+    - assert (Hd : Forall (fun b => keep b = true /\ (b < List.length (env F))%nat) (deps d)).
+      { rewrite Forall_forall. intros b Hb. rewrite forallb_forall in Hcl1, Hdeps. split; [apply Hcl1; exact Hb |].
+        specialize (Hdeps b Hb). apply Nat.ltb_lt in Hdeps. lia. }
+      destruct (build_sim_keep F M d S D Hd) as [S' E].
+      destruct i as [| i]; [cbn; rewrite E; reflexivity |]. cbn [nth_error].
+      apply IH with (j := S j); auto.
+      + destruct (Lenv F d) as [y Ey]. rewrite Ey, app_length; cbn; lia.
+      + intros; apply Hok; right; assumption.
+      + replace (S j + i)%nat with (j + S i)%nat by lia. exact Hi.
+    - destruct i as [| i]; [replace (j + 0)%nat with j in Hi by lia; congruence |]. cbn [nth_error].
+      apply IH with (j := S j); auto.
+      + apply build_sim_skip; auto. rewrite Hj; exact Kj.
+      + destruct (Lenv F d) as [y Ey]. rewrite Ey, app_length; cbn; lia.
+      + intros; apply Hok; right; assumption.
+      + replace (S j + i)%nat with (j + S i)%nat by lia. exact Hi.
+  Qed.
+
+  Lemma sim_init : sim (init_state user) (init_state user).
+  Proof.
+    split; [apply good_init |]. split; [apply good_init |]. split; [reflexivity |].
+    intros b _ Hb. cbn in Hb. lia.
+  Qed.
 End Guarded.
+
+(** the guard: a constraint object that has a [within_block] is handed only to constructions of one geometry *)
+Definition consistent (user : list cobj) (gc : nat -> geom) (ds : list desc) : Prop :=
+  forall d, In d ds -> forall c, In c (d_cs d) -> has_within (c_kind (nth c user default_obj)) = true -> d_geom d = gc c.
+
+Lemma wf_from_cs : forall nuser ds j d, wf_from nuser j ds = true -> In d ds -> Forall (fun c => (c < nuser)%nat) (d_cs d).
+Proof.
+  intros nuser ds; induction ds as [| x r IH]; intros j d H Hin; [destruct Hin |].
+  cbn in H. apply andb_true_iff in H; destruct H as [H1 H2]. apply andb_true_iff in H1; destruct H1 as [_ H1].
+  destruct Hin as [-> | Hin]; [| eapply IH; eauto].
+  rewrite Forall_forall. intros c Hc. rewrite forallb_forall in H1. apply Nat.ltb_lt. apply H1; exact Hc.
+Qed.
+
+Theorem history_independent_guarded : forall (user : list cobj) (gc : nat -> geom) (ds : list desc) (keep : nat -> bool) (i : nat),
+  wf (List.length user) ds = true -> consistent user gc ds -> closed keep ds = true -> keep i = true ->
+  nth_error (snd (run (init_state user) ds)) i = nth_error (snd (run (init_state user) (mask keep ds))) i.
+Proof.
+  intros user gc ds keep i Hwf Hc Hcl Hk. unfold mask.
+  apply (run_sim user gc keep ds 0%nat (init_state user) (init_state user)); auto.
+  - apply sim_init.
+  - intros d Hd. split.
+    + eapply wf_from_cs; eauto.
+    + rewrite Forall_forall. intros c Hcin Hw. eapply Hc; eauto.
+Qed.
+
+Lemma closure_keeps : forall ds fuel set x, In x set -> In x (closure ds fuel set).
+Proof.
+  intros ds fuel; induction fuel as [| k IH]; intros set x H; cbn; [exact H |].
+  apply IH. apply in_or_app; left; exact H.
+Qed.
+
+Lemma keep_of_self : forall ds i, keep_of ds i i = true.
+Proof.
+  intros ds i; unfold keep_of. apply existsb_exists. exists i. split; [| apply Nat.eqb_refl].
+  apply closure_keeps. left; reflexivity.
+Qed.
+
+(** the form used by the check: the summary of a block built in the shared program equals that of its fresh twin *)
+Corollary shared_eq_fresh_guarded : forall user gc ds i,
+  wf (List.length user) ds = true -> consistent user gc ds -> closed (keep_of ds i) ds = true ->
+  shared_summary user ds i = fresh_summary user ds i.
+Proof.
+  intros user gc ds i Hwf Hc Hcl. unfold shared_summary, fresh_summary.
+  rewrite (history_independent_guarded user gc ds (keep_of ds i) i Hwf Hc Hcl (keep_of_self ds i)). reflexivity.
+Qed.
+
+(** constraints without [within_block] can be shared freely: with no such object the guard is empty *)
+Corollary shared_eq_fresh_no_within : forall user ds i,
+  wf (List.length user) ds = true -> Forall (fun o => has_within (c_kind o) = false) user ->
+  closed (keep_of ds i) ds = true ->
+  shared_summary user ds i = fresh_summary user ds i.
+Proof.
+  intros user ds i Hwf Hn Hcl.
+  apply (shared_eq_fresh_guarded user (fun _ => wit_g2) ds i Hwf); [| exact Hcl].
+  intros d Hd c Hc Hw. exfalso.
+  destruct (lt_dec c (List.length user)) as [Hlt | Hge].
+  - rewrite Forall_forall in Hn. rewrite (Hn (nth c user default_obj)) in Hw; [discriminate | apply nth_In; exact Hlt].
+  - rewrite nth_overflow in Hw by lia. discriminate.
+Qed.
+
+(** a guarded example with shared objects: the same AtMostKInARow object in two blocks of one geometry,
+    one of them repeated, and an ExactlyK object on the outer block of a Nest *)
+Definition ex_user : list cobj :=
+  [ {| c_kind := KAtMost; c_within := None; c_k := 1; c_trials := 0; c_mtr := None |};
+    {| c_kind := KExactlyK; c_within := None; c_k := 1; c_trials := 0; c_mtr := None |};
+    {| c_kind := KMinTrials; c_within := None; c_k := 0; c_trials := 4; c_mtr := None |} ].
+Definition ex_prog : list desc :=
+  [ {| d_kind := DLeaf; d_geom := wit_g2; d_cs := [0%nat; 1%nat]; d_copied := [] |};
+    {| d_kind := DLeaf; d_geom := wit_g2; d_cs := [0%nat]; d_copied := [] |};
+    {| d_kind := DRepeat 0; d_geom := wit_g4; d_cs := [2%nat]; d_copied := [] |};
+    {| d_kind := DNest 0 1 2; d_geom := wit_g4; d_cs := []; d_copied := [] |} ].
+
+Lemma ex_guarded :
+  wf (List.length ex_user) ex_prog = true /\ consistent ex_user (fun _ => wit_g2) ex_prog /\
+  closed (keep_of ex_prog 3) ex_prog = true /\
+  shared_summary ex_user ex_prog 3 =
+    Some [(KAtMost, Some (gsustain wit_g2 2), 1, 0); (KExactlyK, Some (gsustain wit_g2 2), 2, 0); (KAtMost, Some wit_g2, 1, 0)].
+Proof.
+  split; [reflexivity |]. split; [| split; reflexivity].
+  intros d Hd c Hc Hw. cbn in Hd.
+  destruct Hd as [<- | [<- | [<- | [<- | []]]]]; cbn in Hc |- *; try reflexivity.
+  - destruct Hc as [<- | []]. cbn in Hw. discriminate.
+  - destruct Hc.
+Qed.
